@@ -1,3 +1,107 @@
+import QmiModel.Model.Transport
 import Drv.Common
-/-! stub driver for C13: replaced when the model is built -/
-def main : IO Unit := Drv.main' (fun (s : Unit) _ => (s, "bad-op")) ()
+/-!
+Line protocol for C13 (one output line per input line):
+
+  init tcp|udp|serial <MIN_PACKET_SIZE> <MAX_PACKET_SIZE>        -> ok
+  feed <ev> <ev> ...     ev = d<elapsed>:<hex> | t<elapsed> | e<elapsed>    -> ok
+  open | close | discard
+  read <n> <t> | until <hex> <t> | rut <n> <t>                   t = none | <int ticks>
+
+op output:  <out> io=<trace> clk=<clock> left=<script entries left> buf=<hex>
+  out = ret:<hex> | none | exc:<PyType>
+-/
+open QmiModel.Transport
+
+def parseT (s : String) : Option (Option Int) :=
+  if s == "none" then some none else (s.toInt?).map some
+
+def parseEv (s : String) : Option Ev :=
+  match s.toList with
+  | 't' :: r => (String.ofList r).toNat?.map (fun e => ⟨e, .timeout⟩)
+  | 'e' :: r => (String.ofList r).toNat?.map (fun e => ⟨e, .eof⟩)
+  | 'd' :: r =>
+    match (String.ofList r).splitOn ":" with
+    | [e, h] =>
+      match e.toNat?, Drv.unhex h with
+      | some e, some bs => some ⟨e, .data bs⟩
+      | _, _ => none
+    | _ => none
+  | _ => none
+
+def parseEvs : List String → Option Script
+  | [] => some []
+  | x :: xs =>
+    match parseEv x, parseEvs xs with
+    | some e, some r => some (e :: r)
+    | _, _ => none
+
+def excName : Exc → String
+  | .invalidOp => "QMI_InvalidOperationException"
+  | .timeout => "QMI_TimeoutException"
+  | .eof => "QMI_EndOfInputException"
+  | .runtime => "QMI_RuntimeException"
+  | .valueError => "ValueError"
+  | .assertion => "AssertionError"
+  | .exhausted => "ScriptExhausted"
+
+def outStr : Out → String
+  | .ret bs => "ret:" ++ Drv.hex bs
+  | .unit => "none"
+  | .exc e => "exc:" ++ excName e
+
+def tStr : Option Int → String
+  | none => "none"
+  | some v => toString v
+
+def ioStr : Io → String
+  | .mk => "mk"
+  | .st v => "st:" ++ tStr v
+  | .rf n => "rf:" ++ toString n
+  | .rv n => "rv:" ++ toString n
+  | .cl => "cl"
+  | .iw => "iw"
+  | .rd n => "rd:" ++ toString n
+  | .rs => "rs"
+
+def ioTrace (l : List Io) : String :=
+  if l.isEmpty then "-" else ",".intercalate (l.map ioStr)
+
+/-- run one op; the io trace and the ghost log are cleared before each op (the driver prints only the delta) -/
+def doOp (s : St) (op : Op) : St × String :=
+  let r := step { s with io := [], log := [] } op
+  (r.1, s!"{outStr r.2} io={ioTrace r.1.io} clk={r.1.clock} left={r.1.dev.length} buf={Drv.hex r.1.buf}")
+
+def stepLine (s : St) (line : String) : St × String :=
+  match line.splitOn " " with
+  | ["init", k, a, b] =>
+    match a.toNat?, b.toNat? with
+    | some mn, some mx =>
+      match k with
+      | "tcp" => (init .tcp mn mx, "ok")
+      | "udp" => (init .udp mn mx, "ok")
+      | "serial" => (init .serial mn mx, "ok")
+      | _ => (s, "bad-op")
+    | _, _ => (s, "bad-op")
+  | "feed" :: evs =>
+    match parseEvs evs with
+    | some sc => ((step s (.feed sc)).1, "ok")
+    | none => (s, "bad-op")
+  | ["open"] => doOp s .open
+  | ["close"] => doOp s .close
+  | ["discard"] => doOp s .discardRead
+  | ["read", n, t] =>
+    match n.toNat?, parseT t with
+    | some n, some t => doOp s (.read n t)
+    | _, _ => (s, "bad-op")
+  | ["until", h, t] =>
+    match Drv.unhex h, parseT t with
+    | some term, some t => doOp s (.readUntil term t)
+    | _, _ => (s, "bad-op")
+  | ["rut", n, t] =>
+    match n.toNat?, parseT t with
+    | some n, some t => doOp s (.readUntilTimeout n t)
+    | _, _ => (s, "bad-op")
+  | _ => (s, "bad-op")
+
+def main : IO Unit := Drv.main' stepLine (init .tcp 0 512)
